@@ -155,6 +155,8 @@ class Program:
         ('maybenot', 'Framework', 'below_limit_blocking', lambda f: _calls(f, 'div_duration_f64') and f.output == 'bool'),
         ('maybenot', 'Framework', 'below_limit_padding', lambda f: f.output == 'bool' and len(f.inputs) == 3 and '"n":"allowed_padding_packets"' in _text(f)),
         ('maybenot', 'Framework', 'below_action_limits', lambda f: f.output == 'bool' and len(f.inputs) == 3 and '"n":"allowed_padding_packets"' not in _text(f) and not _calls(f, 'div_duration_f64')),
+        ('maybenot_ffi', None, 'convert_action', lambda f: len(f.inputs) == 1 and 'TriggerAction' in f.inputs[0] and 'MaybenotAction' in f.output),
+        ('maybenot_ffi', None, 'convert_event', lambda f: len(f.inputs) == 1 and 'MaybenotEvent' in f.inputs[0] and 'TriggerEvent' in f.output),
         ('maybenot_simulator', None, 'sim_network_stack', lambda f: '"variant":"TunnelRecv"' in _text(f) and f.output == 'bool'),
         ('maybenot_simulator', None, 'do_scheduled_action', lambda f: '"variant":"PaddingSent"' in _text(f) and 'Option' in f.output),
         ('maybenot_simulator', None, 'do_internal_timer', lambda f: '"variant":"TimerEnd"' in _text(f) and 'Option' in f.output),
@@ -196,6 +198,8 @@ class Program:
                             v = t['f'].get(k2)
                             if v and v.endswith('::' + old):
                                 t['f'][k2] = v[:-len(old)] + canon
+            self.aliases = getattr(self, 'aliases', {})
+            self.aliases[f.key] = canon
 
     # ---- lookup helpers (fail closed)
     def fn(self, crate, adt, name, trait=None):
